@@ -2217,8 +2217,11 @@ func (m *metadataAPI) checkShrinkISRPreconditions(op *proto.RaftLog) error {
 	if err := m.partitionExists(op.ShrinkISROp.Stream, op.ShrinkISROp.Partition); err != nil {
 		return err
 	}
-	return m.checkLeaderGeneration(op.ShrinkISROp.Stream, op.ShrinkISROp.Partition,
-		op.ShrinkISROp.Leader, op.ShrinkISROp.LeaderEpoch)
+	if err := m.checkLeaderGeneration(op.ShrinkISROp.Stream, op.ShrinkISROp.Partition,
+		op.ShrinkISROp.Leader, op.ShrinkISROp.LeaderEpoch); err != nil {
+		return err
+	}
+	return m.checkIsReplica(op.ShrinkISROp.Stream, op.ShrinkISROp.Partition, op.ShrinkISROp.ReplicaToRemove)
 }
 
 // checkExpandISRPreconditions checks if the partition whose ISR is being
@@ -2229,8 +2232,30 @@ func (m *metadataAPI) checkExpandISRPreconditions(op *proto.RaftLog) error {
 	if err := m.partitionExists(op.ExpandISROp.Stream, op.ExpandISROp.Partition); err != nil {
 		return err
 	}
-	return m.checkLeaderGeneration(op.ExpandISROp.Stream, op.ExpandISROp.Partition,
-		op.ExpandISROp.Leader, op.ExpandISROp.LeaderEpoch)
+	if err := m.checkLeaderGeneration(op.ExpandISROp.Stream, op.ExpandISROp.Partition,
+		op.ExpandISROp.Leader, op.ExpandISROp.LeaderEpoch); err != nil {
+		return err
+	}
+	return m.checkIsReplica(op.ExpandISROp.Stream, op.ExpandISROp.Partition, op.ExpandISROp.ReplicaToAdd)
+}
+
+// checkIsReplica checks that the given server is one of the partition's
+// replicas. An ISR change naming any other server cannot be applied, and an
+// operation that fails in apply is fatal on every server of the cluster. The
+// request can come off the network, so it is refused before it is proposed to
+// Raft.
+func (m *metadataAPI) checkIsReplica(streamName string, partitionID int32, replica string) error {
+	partition := m.GetPartition(streamName, partitionID)
+	if partition == nil {
+		return ErrPartitionNotFound
+	}
+	for _, r := range partition.GetReplicas() {
+		if r == replica {
+			return nil
+		}
+	}
+	return fmt.Errorf("%s is not a replica of partition [stream=%s, partition=%d]",
+		replica, streamName, partitionID)
 }
 
 // checkLeaderGeneration checks that the given leader and leader epoch are the
